@@ -6,8 +6,8 @@ Local Open Scope nat_scope.
 
 Ltac rst := cbn [write read1 read2 slots wpc rpc nw n1 n2 wseq rseq recv
                  set_slots set_slot set_counts set_wpc set_rpc add_recv
-                 mark payload slept rlock tk parked1 woken1 bc wt wparked wwoken fillseq
-                 sl_lists sl_fill sl_mark sl_writer sl_rlock] in *.
+                 mark payload pm c_one c_multi c_resps slept rlock tk parked1 woken1 bc wt wparked wwoken fillseq
+                 sl_lists sl_fill sl_mark sl_clear sl_writer sl_rlock] in *.
 Ltac slot_cases s' s E := destruct (Nat.eq_dec s' s) as [E|E]; [subst s'; rewrite ?upd_same|rewrite ?upd_other by exact E].
 
 Section RingInv2.
@@ -68,9 +68,9 @@ Proof.
     + rewrite upd_other by exact E. apply T3. assert (p <> S (nw st)) by (intro; subst p; fold s in E; congruence). lia.
 Qed.
 
-Lemma invt_PutLock : forall st st' p s, InvT st -> lstep k st (PutLock p s) = Some st' -> InvT st'.
+Lemma invt_PutLock : forall st st' p s m, InvT st -> lstep k st (PutLock p s m) = Some st' -> InvT st'.
 Proof.
-  intros st st' p s [T1 T2 T3] Hl. cbn [lstep] in Hl.
+  intros st st' p s m [T1 T2 T3] Hl. cbn [lstep] in Hl.
   destruct (negb (rlock (slots st s)) && (memb p (tk (slots st s)) || memb p (woken1 (slots st s)))) eqn:G; [|discriminate].
   apply andb_true_iff in G. destruct G as [_ G].
   set (x := slots st s) in *.
@@ -93,7 +93,7 @@ Proof.
   assert (V : forall v, v = (if Nat.eqb (mark x1) 0 then v1 else v2) ->
               pend v = pend x /\ forall q, occ v q = occ x q).
   { intros v Hv. destruct (Nat.eqb (mark x1) 0).
-    - subst v v1. unfold pend, occ. destruct (slept (sl_fill x1 p)); rst; rewrite F1, F2, app_length; cbn [length];
+    - subst v v1. unfold pend, occ. destruct (slept (sl_fill x1 p m)); rst; rewrite F1, F2, app_length; cbn [length];
         (split; [lia|]); intro q; rewrite cnt_app1; specialize (F4 q); lia.
     - subst v v2. unfold pend, occ. rst. rewrite F1, F2, app_length. cbn [length].
       split; [lia|]. intro q. rewrite cnt_app1. specialize (F4 q). lia. }
@@ -249,9 +249,9 @@ Proof.
     exfalso; assert (H : wpc st = WWait s') by (apply W3; auto); rewrite Hw in H; inversion H; congruence.
 Qed.
 
-Lemma invw_PutLock : forall st st' p s, InvW st -> lstep k st (PutLock p s) = Some st' -> InvW st'.
+Lemma invw_PutLock : forall st st' p s m, InvW st -> lstep k st (PutLock p s m) = Some st' -> InvW st'.
 Proof.
-  intros st st' p s IW Hl. cbn [lstep] in Hl.
+  intros st st' p s m IW Hl. cbn [lstep] in Hl.
   destruct (negb (rlock (slots st s)) && (memb p (tk (slots st s)) || memb p (woken1 (slots st s)))) eqn:G; [|discriminate].
   set (x := slots st s) in *.
   set (x1 := if memb p (tk x) then sl_lists x (remove1 p (tk x)) (parked1 x) (woken1 x) (bc x) (wt x)
@@ -265,7 +265,7 @@ Proof.
   - match type of Hl with Some (set_slot _ _ ?vv) = _ => remember vv as v eqn:Ev end.
     assert (V : mark v = 1 /\ slept v = slept x /\ wparked v = wparked x /\ wwoken v = wwoken x /\ rlock v = rlock x /\
                 (slept x = true -> bc v <> [])).
-    { subst v. destruct (slept (sl_fill x1 p)) eqn:Sl; rst; rewrite ?M2, ?M4, ?M5, ?M6; repeat split; try reflexivity.
+    { subst v. destruct (slept (sl_fill x1 p m)) eqn:Sl; rst; rewrite ?M2, ?M4, ?M5, ?M6; repeat split; try reflexivity.
       - intros _ H. apply app_eq_nil in H. destruct H. discriminate.
       - rst. rewrite M4 in Sl. congruence. }
     destruct V as (V1 & V2 & V3 & V4 & V5 & V6). clear Ev. apply some_inj in Hl. subst st'.
